@@ -23,6 +23,7 @@ import (
 	"path/filepath"
 	"sort"
 	"strings"
+	"time"
 
 	"github.com/sirupsen/logrus"
 )
@@ -125,6 +126,22 @@ func (h *H) OracleFail(sig string, desc string, input any) {
 	h.oracleF.Write(append(b, '\n'))
 }
 
+// Deadline runs f on the real code; if f does not return within d the call is considered hung (a property that
+// says an operation fails/terminates is violated by a call that never returns): the oracle failure is recorded,
+// everything is flushed and the process exits 0 so the runner reports the recorded input.  A hung call may hold
+// locks, so the case cannot continue.
+func (h *H) Deadline(d time.Duration, sig, desc string, input any, f func()) {
+	done := make(chan struct{})
+	go func() { defer close(done); f() }()
+	select {
+	case <-done:
+	case <-time.After(d):
+		h.OracleFail(sig, desc, input)
+		h.Close()
+		os.Exit(0)
+	}
+}
+
 // CaseNo is the 1-based number of the current case.
 func (h *H) CaseNo() int { return h.cases }
 
@@ -164,7 +181,7 @@ func (h *H) Close() {
 // ---- small generator helpers ------------------------------------------------
 
 func (h *H) Intn(n int) int { return h.Rng.Intn(n) }
-func (h *H) Bool() bool    { return h.Rng.Intn(2) == 0 }
+func (h *H) Bool() bool     { return h.Rng.Intn(2) == 0 }
 func (h *H) Chance(p float64) bool {
 	return h.Rng.Float64() < p
 }
